@@ -181,8 +181,10 @@ class SpecGen:
             cand = [k for k in cand if "." not in k]
         o = {}
         for k in r.sample(cand, min(len(cand), r.randint(1, 2))):
-            if cfg["tmpl_preset"] and r.random() < 0.25:
-                v = r.choice(U.TEMPLATES)
+            if cfg["tmpl_preset"] and r.random() < 0.25 and k not in U.PRESET_TEMPLATE_TARGETS:
+                # hazard 12 across dictionaries: a template in a pre-set and one in the caller's dictionary (or in another
+                # pre-set) could close a reference cycle -> pre-set templates only refer to keys that never hold templates
+                v = r.choice(U.PRESET_TEMPLATES)
             elif k in U.DISPATCH_KEYS:
                 v = r.choice(U.DISPATCH_VALUES)
             else:
